@@ -114,8 +114,9 @@ def effect_table(index: RepoIndex, rep, rule: str, want_class: Set[str]) -> None
 
 def run(index: RepoIndex, rep) -> None:
     rep.rule('C08.R1', 'action tables: MOVE_* -> like-named orientation, TURN_LEFT -> L, '
-             'TURN_RIGHT -> R, _MOVE_ACTIONS/_TURN_ACTIONS exact', floor=4)
-    rep.rule('C08.R2', 'tentative next position agrees with the pose algebra (C18.R7)', floor=17)
+             'TURN_RIGHT -> R, _MOVE_ACTIONS/_TURN_ACTIONS exact', floor=3)
+    rep.rule('C08.R2', 'tentative next position agrees with the pose algebra for every heading '
+             'and action (C18.R7)', floor=32)
     rep.rule('C08.R3', 'movement gate: the only position store of move_agent fires iff is_move '
              'and inside(next) and not blocks_movement(cell(next)), with value next', floor=2)
     rep.rule('C08.R4', 'turn_agent stores only the heading, composed with the table entry, '
@@ -129,17 +130,21 @@ def run(index: RepoIndex, rep) -> None:
     acts = index.enum('Action')
 
     # ---------------------------------------------------------------- R1
-    tab = index.table(UTILS, '_move_action_to_orientation')
-    got = {}
-    for k, v in zip(tab.keys, tab.values):
-        a, o = index.enum_member(k), index.enum_member(v)
-        if not a or not o:
-            raise AnalysisError('_move_action_to_orientation: non-literal entry')
-        got[a[1]] = o[1]
-    want = {'MOVE_FORWARD': 'FORWARD', 'MOVE_BACKWARD': 'BACKWARD', 'MOVE_LEFT': 'LEFT',
-            'MOVE_RIGHT': 'RIGHT'}
-    rep.check(got == want, 'C08.R1', UTILS, '_move_action_to_orientation', tab.lineno,
-              src(tab), f'move table is {got}, documented mapping is {want}', 'move table')
+    if '_move_action_to_orientation' in index.module(UTILS).assigns:
+        tab = index.table(UTILS, '_move_action_to_orientation')
+        got = {}
+        for k, v in zip(tab.keys, tab.values):
+            a, o = index.enum_member(k), index.enum_member(v)
+            if not a or not o:
+                raise AnalysisError('_move_action_to_orientation: non-literal entry')
+            got[a[1]] = o[1]
+        want = {'MOVE_FORWARD': 'FORWARD', 'MOVE_BACKWARD': 'BACKWARD', 'MOVE_LEFT': 'LEFT',
+                'MOVE_RIGHT': 'RIGHT'}
+        rep.check(got == want, 'C08.R1', UTILS, '_move_action_to_orientation', tab.lineno,
+                  src(tab), f'move table is {got}, documented mapping is {want}', 'move table')
+    else:
+        rep.note('no _move_action_to_orientation table: the move mapping is decided by the '
+                 'denotation of get_next_position (C08.R2)')
     tab = index.table(TRANS, '_action_orientations')
     got = {}
     for k, v in zip(tab.keys, tab.values):
@@ -282,31 +287,35 @@ class _SubReport:
 
 
 def _next_position(index, rep, geo) -> None:
-    """C18.R7 obligations (shared with c18.run)"""
+    """C18.R7 / C08.R2: the denotation of get_next_position for every heading and action --
+    extracted guarded returns evaluated over concrete enum members and a symbolic position --
+    equals position + M(heading)·delta(direction of the move), and position for non-moves"""
     from .c18 import mv
-    table = index.table(UTILS, '_move_action_to_orientation')
-    mv_tab = {}
-    for k, v in zip(table.keys, table.values):
-        ka, vo = index.enum_member(k), index.enum_member(v)
-        mv_tab[ka[1]] = vo[1]
-    for o in geo.orients:
-        for act, mo in mv_tab.items():
-            rep.check(geo.delta[geo.rot[(o, mo)]] == mv(geo.mat(o), geo.delta[mo]),
-                      'C18.R7', UTILS, 'get_next_position', table.lineno, f'{o} * {mo}',
-                      f'moving {act} with heading {o}: delta of {geo.rot[(o, mo)]} is '
-                      f'{geo.delta[geo.rot[(o, mo)]]} but M({o})·delta({mo}) = '
-                      f'{mv(geo.mat(o), geo.delta[mo])}', f'next {o},{act}')
-    from ..guards import walk_function
+    from ..geom import GeoInterp, P
+    from ..affine import Aff
+    gi = GeoInterp(geo)
     gn = index.func(UTILS, 'get_next_position')
     ps = [a.arg for a in gn.node.args.args]
-    w = walk_function(gn.node)
-    ren = dict(zip(ps, ['POS', 'ORI', 'ACT']))
-    rets = [src(w.expand(e.value, ren)) for e in w.events
-            if e.kind == 'return' and e.value is not None]
-    want = 'POS + Position.from_orientation(ORI * _move_action_to_orientation[ACT])'
-    alt = 'Position.from_orientation(ORI * _move_action_to_orientation[ACT]) + POS'
-    rep.check(any(r in (want, alt) for r in rets) and all(r in (want, alt, 'POS') for r in rets),
-              'C18.R7', UTILS, 'get_next_position', gn.node.lineno, '; '.join(rets),
-              f'get_next_position returns {rets}; expected position + '
-              f'from_orientation(orientation * table[action]) (and position for non-moves)',
-              'next position formula')
+    if len(ps) != 3:
+        raise AnalysisError('get_next_position no longer takes (position, orientation, action)')
+    direction = {'MOVE_FORWARD': 'FORWARD', 'MOVE_BACKWARD': 'BACKWARD', 'MOVE_LEFT': 'LEFT',
+                 'MOVE_RIGHT': 'RIGHT'}
+    acts = index.enum('Action')
+    for o in geo.orients:
+        for a in acts.order:
+            try:
+                got = gi.call(gn, {ps[0]: P('py', 'px'), ps[1]: ('O', o),
+                                   ps[2]: ('E', 'Action', a)})
+            except AnalysisError as e:
+                raise AnalysisError(f'get_next_position outside the grammar: {e}')
+            if a in direction:
+                d = mv(geo.mat(o), geo.delta[direction[a]])
+                want = ('P', (Aff.sym('py') + d[0], Aff.sym('px') + d[1]))
+            else:
+                want = ('P', (Aff.sym('py'), Aff.sym('px')))
+            rep.check(got == want, 'C18.R7', UTILS, 'get_next_position', gn.node.lineno,
+                      f'heading {o}, {a} -> {got[1] if got[0] == "P" else got}',
+                      f'heading {o}, action {a}: tentative next position is '
+                      f'{got[1] if got[0] == "P" else got}, the pose algebra gives {want[1]}'
+                      f' (one cell in the commanded direction relative to the heading'
+                      f'{"" if a in direction else "; non-moves stay"})', f'next {o},{a}')
